@@ -69,6 +69,24 @@ def _build_in(d, release, tag):
 
 
 def run_requests(binary, reqs):
+    """one replayer process answers the requests in order; a ('restart', …) request ends that process and starts a fresh one for what
+    follows (its own answer is OK/restarted), so that a family can compare an answer with the one a fresh process gives"""
+    if any(r and r[0] == 'restart' for r in reqs):
+        out, seg = [], []
+        for r in list(reqs) + [('restart', '')]:
+            if r and r[0] == 'restart':
+                if seg:
+                    got = _run_segment(binary, seg)
+                    out += got + [['PANIC', 'HANG: no answer']] * (len(seg) - len(got))
+                out.append(['OK', 'restarted'])
+                seg = []
+            else:
+                seg.append(r)
+        return out[:-1]
+    return _run_segment(binary, reqs)
+
+
+def _run_segment(binary, reqs):
     def esc(s):
         return s.replace('\\', '\\\\').replace('\n', '\\n').replace('\t', '\\t').replace('\r', '\\r')
     # a request that does not return within the replayer's limit ends that process with a HANG line: it is restarted on the rest
@@ -762,16 +780,19 @@ def family_sequence():
     ordered pairs A, B out of twelve inputs that differ in output mode, matchers, printers, time tests and refusal): the three
     answers for A are identical (clock normalised)"""
     inputs = ['-name a -print', '-name a -print0', '-print', '-fprint f', '-name a -o -name b', '-iname a -fprint0 f', '-printf "%p\\n"', '-printf "%p"',
-              '-true', '-name a -user u', '-type f,d -size +1k', '! ( -name a -o -print0 )']
+              '-true', '-name a -user u', '-type f,d -size +1k', '! ( -name a -o -print0 )',
+              # front end: options after the start of the expression, rejected inputs, every argument reader
+              '-name core -threads 4', '-true -depth', '-threads 2 -name a ! -threads 9 -depth', '-name a -o', '-perm -u+rw,g=r -mmin -5', '-printf "%p %s\\n" -size -3M',
+              '-nosuch', '-uid +7 -links 2 -xattr-match a b']
     norm = lambda g: [re.sub(r'\(- \d{9,12} \(', '(- NOW (', x) for x in g]
     for a in inputs:
         for b in inputs:
             if a == b:
                 continue
             c = inputs[(inputs.index(b) + 5) % len(inputs)]
-            yield dict(op='compile', input=a, also3=(('compile', b), ('compile', a), ('compile', c), ('compile', a)),
-                       expect='the same answer for the first, third and fifth request (the same input)',
-                       bad=lambda g, g2, g3, g4, g5: not (norm(g) == norm(g3) == norm(g5)))
+            yield dict(op='restart', input='', also3=(('compile', a), ('compile', b), ('compile', a), ('compile', c), ('compile', a)),
+                       expect='in a fresh process: the same answer for the first, third and fifth compilation (the same input `%s`)' % a,
+                       bad=lambda g0, g, g2, g3, g4, g5: not (norm(g) == norm(g3) == norm(g5)))
 
 
 def family_structure():
@@ -1333,6 +1354,16 @@ def family_parse_refusal():
         yield dict(op='compile', input=ok, expect='compiles', bad=lambda g: g[0] != 'OK')
 
 
+def family_option_nodes():
+    """C12, outside the domain of the compile contract (the parser never leaves an option node in the tree, the public constructors
+    can): a tree that holds an option node is never turned into a program — the pinned tree panics on it, which this family does
+    not judge; silently emitting a constant for `-maxdepth` is what it looks for"""
+    opts = ['Global(MaxDepth(1))', 'Global(MinDepth(2))', 'Global(Depth)', 'Global(Threads(3))']
+    for o in opts:
+        for shape in ('%s', 'And(Test(True), %s)', 'And(%s, Action(Print))', 'Or(Test(True), %s)', 'Not(%s)', 'List(%s, Test(Name("x")))', 'Or(And(Test(False), %s), Action(PrintNull))'):
+            yield dict(op='ast', input=shape % o, expect='no program (an error value; the pinned tree panics)', bad=lambda g: g[0] == 'OK')
+
+
 def family_ast_refusal():
     """C12 on directly built trees: a tree holding an unsupported primary, format directive or \\c is refused, every other tree of
     the family compiles"""
@@ -1405,7 +1436,7 @@ def family_hostile():
 
 GENERATED = {
     'BOUNDED.clock_window': family_clock, 'C07.time_comp.text': family_clock,
-    'BOUNDED.parse_grammar': family_precedence, 'BOUNDED.parse_refusal': family_parse_refusal, 'BOUNDED.parse_perm': family_perm, 'BOUNDED.parse_options': family_options, 'BOUNDED.parse_total': (family_parse_total, family_grammar), 'BOUNDED.parse_numbers': family_parse_numbers,
+    'BOUNDED.option_nodes': family_option_nodes, 'BOUNDED.sequence': family_sequence, 'BOUNDED.parse_grammar': family_precedence, 'BOUNDED.parse_refusal': family_parse_refusal, 'BOUNDED.parse_perm': family_perm, 'BOUNDED.parse_options': family_options, 'BOUNDED.parse_total': (family_parse_total, family_grammar), 'BOUNDED.parse_numbers': family_parse_numbers,
     'ASSUME.printer_map': family_table, 'C10.table.keys': family_table,
     'C09.top.wrap_decision': family_wrap, 'C19.action.iff': family_wrap, 'C09.emit.structure': family_wrap,
     'C12.refusal.iff': family_refusal, 'C12.top.iff': family_refusal,
@@ -1431,7 +1462,7 @@ FAMILY_RULES = [
     (r'\.matcher\.|get_matcher|matcher_name|matcher_ref', (family_matchers, family_hostile, family_long, family_ast_structure)),
     (r'\.(printer|file_port|default_port)\.|get_printer|get_file_printer|printer_name|printer_ref|printf_ref|^C10\.(table|top|routing|terminator_text)|\.definitions$',
      (family_table, family_long, family_determinism, family_ast_structure)),
-    (r'^C12\.', (family_refusal, family_ast_refusal, family_parse_refusal)),
+    (r'^C12\.', (family_refusal, family_ast_refusal, family_parse_refusal, family_option_nodes)),
     (r'^C09\.|^C19\.action', (family_wrap, family_wrap_body, family_structure, family_precedence)),
     (r'^SAFETY\.|^C11\.budget', (family_panics, family_long, family_ast, family_perm, family_grammar)),
     (r'^C08\.|^KANI\.c08', (family_perm,)),
@@ -1502,7 +1533,10 @@ CANNED = {
 
 # functions left outside the verifier (assumed contracts) that get a BOUNDED stand-in: the family is run on every check
 BOUNDED_STANDINS = {
-    'C15': [('BOUNDED.clock_window', 'BOUNDED.clock_window', 'compile_time_comp\'s clock read (SystemTime: no clock model in the verifier) — bounded stand-in: five '
+    'C15': [('BOUNDED.sequence', 'BOUNDED.sequence', 'find_parser::parse (outside the verifier: whether it keeps state between calls is not decided by proof) and the whole '
+             'pipeline — bounded stand-in: for all ordered pairs A, B of twenty inputs (output modes, matchers, printers, time tests, refusals, options after the start of the '
+             'expression, rejected inputs) the sequence A, B, A, C, A in one process answers A identically three times'),
+            ('BOUNDED.clock_window', 'BOUNDED.clock_window', 'compile_time_comp\'s clock read (SystemTime: no clock model in the verifier) — bounded stand-in: five '
              'time-test compilations in one process more than a second apart, two of them right after a refused or rejected compilation that '
              'contained a time test; each embedded second must lie within its own compile call')],
     'C13': [('BOUNDED.parse_options', 'BOUNDED.parse_options', 'find_parser::_parse (winnow combinators and closures over &mut state: outside the verifier) — bounded '
@@ -1522,7 +1556,9 @@ BOUNDED_STANDINS = {
              'print had been written" depends on it) — bounded stand-in: every word sequence up to length 5 (thorough: 6) over { ( ) ! , -a -o -true -print } and 4,000 longer '
              'ones with the synonyms: accepted exactly when it is a sentence, and then the tree is the reference tree (! over AND over OR over `,`, left-associative, '
              'parentheses leave no node)')],
-    'C12': [('BOUNDED.parse_refusal', 'BOUNDED.parse_refusal', 'the keyword table of find_parser (which node a keyword and its argument parse to: winnow combinators, outside the verifier) — '
+    'C12': [('BOUNDED.option_nodes', 'BOUNDED.option_nodes', 'Expression::compile on trees that hold an option node (outside the domain of the compile contract: the parser never '
+             'returns them, the public constructors can build them) — bounded stand-in: 4 option nodes in 7 tree shapes are never turned into a program'),
+            ('BOUNDED.parse_refusal', 'BOUNDED.parse_refusal', 'the keyword table of find_parser (which node a keyword and its argument parse to: winnow combinators, outside the verifier) — '
              'bounded stand-in: each of the 19 primaries and options the target cannot express, with 18 argument spellings (names starting with digits, numbers, quoted '
              'words, patterns) in 7 expression shapes (two of them under -depth / -threads), is refused or rejected and never compiled; their supported neighbours compile')],
     'C10': [('BOUNDED.printer_map', 'ASSUME.printer_map',
